@@ -149,9 +149,10 @@ struct Driver {
             }
             hooks.drop_receive = [](const network::TransportMessage& m) { std::scoped_lock lk(g_qm); g_raw.push_back(m); return true; };
             network::SessionManager::set_test_hooks(&hooks);
+            static long bi = 0; ++bi;
             for (long i = 1; i <= n; ++i) {
                 const auto& sc = nodes[i]->config();
-                ev::Ev e("reset"); e.i("min", sc.min_manifest_ttl.count() * 1000).i("max", sc.max_manifest_ttl.count() * 1000).i("deflt", sc.default_chunk_ttl.count() * 1000)
+                ev::Ev e("reset"); e.i("bi", bi).i("min", sc.min_manifest_ttl.count() * 1000).i("max", sc.max_manifest_ttl.count() * 1000).i("deflt", sc.default_chunk_ttl.count() * 1000)
                     .i("rot", sc.key_rotation_interval.count() * 1000).i("apow", sc.announce_pow_difficulty).i("hpow", sc.handshake_pow_difficulty).i("spow", sc.store_pow_difficulty);
                 fin(e, i);
             }
